@@ -109,6 +109,7 @@ pub struct Shared {
     pub cur_conn: Cell<Option<usize>>,
     pub cur_paused: Cell<bool>,
     pub expect_removed: Cell<Option<usize>>,
+    pub drain_windows: Cell<u64>,
     pub paused_at_step_begin: Cell<bool>,
     pub armed_fault: Cell<Option<(usize, i32)>>,
     pub fault_fired_in_step: Cell<Option<(usize, i32)>>,
@@ -176,6 +177,7 @@ impl Shared {
             cur_conn: Cell::new(None),
             cur_paused: Cell::new(false),
             expect_removed: Cell::new(None),
+            drain_windows: Cell::new(0),
             paused_at_step_begin: Cell::new(false),
             armed_fault: Cell::new(None),
             fault_fired_in_step: Cell::new(None),
@@ -404,6 +406,13 @@ impl Hooks for SimHooks {
                         ev!(ctx, "send of c{c} to w{idx} failed");
                         ctx.bump("probe.send_failed_discovered");
                     });
+                }
+            }
+            Point::QueueDrained { lock_held } => {
+                if !lock_held {
+                    // the emptiness check and the reset are not atomic: workers may push now
+                    sh.ctx(|ctx| ctx.bump("probe.queue_reset_unlocked"));
+                    crate::drain_window(sh);
                 }
             }
             Point::StopSignalled => {
